@@ -1,0 +1,61 @@
+//go:build verif
+
+package stage
+
+import (
+	"context"
+
+	"github.com/lindb/lindb/internal/concurrent"
+)
+
+// VerifStage is a Stage for the verification harness (property C19). It embeds the real
+// baseStage, so Execute (inline execution / pool submission / panic routing), IsAsync, Stats
+// and Type are the production code; only what every concrete production stage supplies
+// itself (Identifier, Plan, NextStages, Complete) is provided by the harness.
+type VerifStage struct {
+	baseStage
+
+	ID         string
+	PlanFn     func() PlanNode
+	NextFn     func() []Stage
+	CompleteFn func()
+}
+
+// NewVerifStage creates a harness stage. Like the production stages it is async iff both
+// ctx and pool are set (see baseStage.IsAsync).
+func NewVerifStage(ctx context.Context, pool concurrent.Pool, id string) *VerifStage {
+	return &VerifStage{
+		baseStage: baseStage{
+			ctx:       ctx,
+			execPool:  pool,
+			stageType: Unknown,
+		},
+		ID: id,
+	}
+}
+
+// Identifier returns identifier value of current stage.
+func (s *VerifStage) Identifier() string { return s.ID }
+
+// Plan returns the harness supplied plan tree.
+func (s *VerifStage) Plan() PlanNode {
+	if s.PlanFn == nil {
+		return nil
+	}
+	return s.PlanFn()
+}
+
+// NextStages returns the harness supplied next stages.
+func (s *VerifStage) NextStages() []Stage {
+	if s.NextFn == nil {
+		return nil
+	}
+	return s.NextFn()
+}
+
+// Complete notifies the harness (production stages release resources here).
+func (s *VerifStage) Complete() {
+	if s.CompleteFn != nil {
+		s.CompleteFn()
+	}
+}
